@@ -51,7 +51,8 @@ def scrape_flags(bins):
 NUMS = ["-1", "0", "1", "7", "4294967295", "4294967296", "18446744073709551615", "18446744073709551616", "1" + "0" * 30, "1.5", "1e3", "0x10", "٣", "", " 5",
         "99999999999999", "253402300800", "8210266876800", "9223372036854775807", "9223372036854775808", "-9223372036854775808", "-9223372036854775809", "+5", "00"]
 # Tera's own built-ins are reachable through --output-template just like zerv's functions: failing and edge uses of each family
-TERA_BUILTINS = ["{{ get_random(start=5, end=1) }}", "{{ get_random(end=0) }}", "{{ 99999999999999 | date }}", "{{ bumped_timestamp | date }}", "{{ \"zz\" | int(base=1) }}",
+TERA_BUILTINS = ["{{ get_random(start=5, end=1) }}", "{{ get_random(end=0) }}", "{{ 99999999999999 | date }}", "{{ bumped_timestamp | date }}", "{{ bumped_timestamp | date(format=\"%\") }}", "{{ bumped_timestamp | date(format=\"%Y-%m-%d %5\") }}", "{{ 1710511845 | date(format=\"%Q\") }}",
+                 "{{ bumped_timestamp | date(format=\"%Y\", timezone=\"Asia/Kolkata\") }}", "{{ \"zz\" | int(base=1) }}",
                  "{{ \"zz\" | int(base=99) }}", "{{ \"12\" | int(base=36) }}", "{{ bumped_timestamp | date(format=\"%Q\") }}", "{{ \"x\" | date }}", "{{ -99999999999999999 | date }}",
                  "{{ \"2024-13-45\" | date }}", "{{ \"2024-01-01T00:00:00+99:00\" | date }}", "{{ bumped_timestamp | date(timezone=\"Nowhere/Land\") }}",
                  "{% macro a() %}{{ self::a() }}{% endmacro a %}{{ self::a() }}", "{{ range(end=5) }}", "{% for i in range(end=3) %}{{ i }}{% endfor %}",
@@ -230,8 +231,9 @@ def judge(r, argv, st=None):
         if third_party:
             # a panic raised inside the template engine's own built-ins (not zerv code): classified by the built-in the template uses
             tpl = _template_of(argv)
-            for name, pat in (("get_random", "get_random("), ("date", "| date"), ("int", "| int(")):
-                if pat in tpl:
+            # (the built-in the template uses, where that built-in is known to panic): a panic anywhere else is not excused by the template's wording
+            for name, pat, where in (("get_random", "get_random(", "rand-"), ("date", "| date", "tera-"), ("int", "| int(", "library/core/src/num")):
+                if pat in tpl and loc.startswith(where):
                     out.append(("panic-in-tera-builtin-" + name, "exit %s at %s: %s (template %r)" % (code, loc, first, tpl[:120])))
                     return out
         out.append(("panic@" + loc, "exit %s, stderr: %s" % (code, first)))
@@ -615,7 +617,8 @@ def run(ctx):
     for t in TERA_BUILTINS:
         tb.append(["render", "1.2.3-rc.1+build.7", "--output-template", t])
         tb.append(["version", "--source", "none", "--tag-version", "1.2.3", "--bumped-branch", "Feature/Foo bar", "--bumped-timestamp", "99999999999999", "--output-template", t])
-        tb.append(["flow", "--source", "none", "--tag-version", "1.2.3", "--distance", "2", "--custom", "{\"a\": {\"b\": [1, 2]}}", "--output-template", t])
+        tb.append(["version", "--source", "none", "--tag-version", "1.2.3", "--distance", "2", "--bumped-branch", "main", "--bumped-timestamp", "1710511845", "--custom", "{\"a\": {\"b\": [1, 2]}}", "--output-template", t])
+        tb.append(["flow", "--source", "none", "--tag-version", "1.2.3", "--distance", "2", "--bumped-timestamp", "1710511845", "--output-template", t])
     for argv, res in zip(tb, core.pmap(work_deep, [(ctx.bins, a, None) for a in tb])):
         ctx.evaluations += 1
         ctx.count("tera_builtin_sweep_runs")
